@@ -11,7 +11,7 @@ ENGINES = [
                         "step all datagrams at all endpoints and the projected tables of all clients are compared with the spec's expected outputs and target state"),
 ]
 
-ENGINES.append(dict(name="engine-B-trace", path="/verif/harness (TestClientConnTrace, TestKeepAliveTrace) + /verif/spec/Trace*.tla", serves_properties=["C13"],
+ENGINES.append(dict(name="engine-B-trace", path="/verif/harness (TestClientConnTrace, TestKeepAliveTrace) + /verif/spec/Trace*.tla", serves_properties=["C13", "C14"],
                     kind_free_text="code -> spec: seeded random drivers that are not derived from the spec run the real client (and server) in virtual time and record one ndjson event per observable step; "
                                    "TLC replays the events through the specification's actions (trace specification, POSTCONDITION on the high-water mark) and evaluates the invariants at every step"))
 
@@ -50,6 +50,9 @@ TEXT = {
     "C13": dict(engine="engine-B-trace", design_ref="6/C13", technique="TLA+ spec of the relayed socket (ClientConn.tla) + TLC; trace validation: executions recorded from the real client are replayed through the spec's actions by TLC",
                 level_note="Trusted: TLC, Go, synctest, the scripted server and the event log of the harness (events are appended under one lock in the order they happen). The recorded executions are a seeded sample, not an enumeration; the invariants are additionally model-checked on a small environment.",
                 level_text="Each recorded event (CreatePermission/ChannelBind request and answer, Send indication, ChannelData, WriteTo call/return, relayed data in, ReadFrom result, Close) must be a step ClientConn.tla allows: data toward a peer only after a CreatePermission success for its IP, ChannelData on n only after the server confirmed n for exactly that peer, numbers in range and injective, reads in FIFO order with the right peer, drops only when the queue is full."),
+    "C14": dict(engine="engine-B-trace", design_ref="6/C14", technique="TLA+ model of the refresh machinery against the expiry timers (KeepAlive.tla, unbounded duration) + TLC; trace validation of hours-long executions of the real client against the real server",
+                level_note="Trusted: TLC, Go, synctest's clock, the in-memory network. The model abstracts time to 10 s units and one peer; the executions are a seeded sample of loss schedules and traffic patterns.",
+                level_text="C14_AllocAlive / C14_ChanAlive / C14_PermAlive / C14_CloseReleases are invariants of KeepAlive.tla over its whole (finite, time-abstract) state space; TraceKeepAlive.tla then decides for every recorded execution that every probe sent while the socket was open was delivered, that the server never deleted the allocation under the live client, and that Close released it."),
     "C16": dict(engine="engine-A-walk", design_ref="6/C16", technique="TLA+ spec of the RFC 6062 relay (TurnTCP.tla) + TLC + lock-step replay on a real server with a stream listener",
                 level_note="Trusted: TLC, Go, synctest, the harness's in-memory streams. Bounded: 2 clients, 2 users, 2 peer IPs x 2 ports, 3 connection ids, depth 6-7.",
                 level_text="TypeOK, C16_UniqueIds, C16_BindOnce, C16_InboundPermitted, C16_Dup446, C16_HeldDelivered are model-checked; every edge (Connect, inbound peer connection, ConnectionBind by right/wrong user and id, data both ways, closes from either side, control-connection close, time to 29/30 s) is replayed and responses, indications, piped bytes, closes, the connection table and the locks are compared."),
